@@ -13,6 +13,7 @@ package congestion
 
 import (
 	"fmt"
+	"math/rand"
 	"net"
 	"strings"
 	"testing"
@@ -102,6 +103,7 @@ type v12sCase struct {
 	capBps   int64
 	lossy    bool
 	ghosts   int
+	randSeed int64 // pins the global math/rand BBR draws its PROBE_BW cycle offset from
 }
 
 func (c v12sCase) quicStart() int64 {
@@ -112,8 +114,8 @@ func (c v12sCase) quicStart() int64 {
 }
 
 func (c v12sCase) String() string {
-	return fmt.Sprintf("conn.InitialPacketSize()=%d remote=%s profile=%q steps=%v rtt=%v capacity=%dB/s lossy=%v unseenInFlight=%d",
-		c.reported, v12sAddrs[c.addrIdx].name, c.profile, c.steps, c.rtt, c.capBps, c.lossy, c.ghosts)
+	return fmt.Sprintf("conn.InitialPacketSize()=%d remote=%s profile=%q steps=%v rtt=%v capacity=%dB/s lossy=%v unseenInFlight=%d randSeed=%d",
+		c.reported, v12sAddrs[c.addrIdx].name, c.profile, c.steps, c.rtt, c.capBps, c.lossy, c.ghosts, c.randSeed)
 }
 
 // v12sRun builds the controller like UseBBR and drives a short QUIC-consistent trace. It returns
@@ -140,6 +142,7 @@ func v12sRun(c v12sCase) (violation string, history string) {
 			history = render()
 		}
 	}()
+	rand.Seed(c.randSeed) // every case is a pure function of its draws (driver sets GODEBUG=randseednop=0)
 	now := int64(time.Hour)
 	byAddr := bbr.GetInitialPacketSize(v12sAddrs[c.addrIdx].addr)
 	seed := seedPacketSize(congestion.ByteCount(c.reported), byAddr)
@@ -149,7 +152,11 @@ func v12sRun(c v12sCase) (violation string, history string) {
 	}
 	var cc congestion.CongestionControlEx = bbr.NewBbrSender(v12sClock{&now}, seed, c.profile)
 	cc.SetRTTStatsProvider(&v12sRTT{rtt: c.rtt})
-	ccSize := int64(seed)     // the size the controller was told last
+	ccSize := int64(seed) // the size the controller was told last
+	// The pacer inside the controller starts with its own default datagram size (1280,
+	// common.NewPacer) and only learns another one through SetMaxDatagramSize; TimeUntilSend waits
+	// for THAT size: lastSentTime + max(1 ms, ceil((pacerSize - budgetAtLastSent) * 1e9 / bandwidth)).
+	pacerSize := int64(1280)
 	quicSize := c.quicStart() // the size QUIC really uses
 	type pkt struct{ pn, size, sent int64 }
 	var out []pkt
@@ -174,9 +181,14 @@ func v12sRun(c v12sCase) (violation string, history string) {
 			if !cc.HasPacingBudget(monotime.Time(t)) {
 				return fmt.Sprintf("after %s: waiting until the announced time does not yield budget for a datagram", where)
 			}
-			// at >= 65536 B/s one datagram is earned within size/65536 s (>= the 1 ms pacing granularity)
-			if lim := max(int64(time.Millisecond), ccSize*1e9/65536+1); t-now > lim {
-				return fmt.Sprintf("after %s: pacing wait %d ns for a %d byte datagram: pacing bandwidth below 65536 B/s", where, t-now, ccSize)
+			// Observable consequence of "pacing bandwidth >= 65536 B/s": with budgetAtLastSent >= 0 and
+			// now >= lastSentTime the wait is at most the time 65536 B/s needs for the largest datagram
+			// size the pacer may hold, or the 1 ms pacing granularity. 25 % + 1 ms of slack on top: this is
+			// a coarse outside view; the exact floor (bandwidthForPacer >= 65536) is asserted in-package
+			// by TestVerifC12_Traces.
+			big := max(pacerSize, ccSize, quicSize, 1280)
+			if lim := max(int64(time.Millisecond), big*1e9/65536)*5/4 + int64(time.Millisecond); t-now > lim {
+				return fmt.Sprintf("after %s: pacing wait %d ns (limit %d) for a datagram of at most %d bytes: pacing bandwidth below 65536 B/s", where, t-now, lim, big)
 			}
 		}
 		return ""
@@ -252,7 +264,7 @@ func v12sRun(c v12sCase) (violation string, history string) {
 			probePN = -1
 			logf("%d SetMaxDatagramSize(%d)", now, quicSize)
 			cc.SetMaxDatagramSize(congestion.ByteCount(quicSize))
-			ccSize = quicSize
+			ccSize, pacerSize = quicSize, quicSize
 			if v := check(fmt.Sprintf("SetMaxDatagramSize(%d)", quicSize)); v != "" {
 				return v, render()
 			}
@@ -270,7 +282,7 @@ func TestVerifC12_SeedGrid(t *testing.T) {
 		for ai := range v12sAddrs {
 			for _, p := range v12sProfiles {
 				for _, first := range []int64{1, 12, 30, 101} {
-					c := v12sCase{reported: rep, addrIdx: ai, profile: p, rtt: 20 * time.Millisecond, capBps: 2000000}
+					c := v12sCase{reported: rep, addrIdx: ai, profile: p, rtt: 20 * time.Millisecond, capBps: 2000000, randSeed: 1 + first}
 					s0 := c.quicStart()
 					last := s0
 					for _, s := range []int64{s0 + first, s0 + first + 40, 1452, 1500} {
@@ -295,6 +307,7 @@ func TestVerifC12_Seed(t *testing.T) {
 	defer st.Flush()
 	rapid.Check(t, func(rt *rapid.T) {
 		c := v12sCase{}
+		c.randSeed = rapid.Int64Range(1, 1<<40).Draw(rt, "randSeed")
 		c.reported = rapid.OneOf(
 			rapid.SampledFrom([]int64{0, 1200, 1250, 1252, 1280, 1350, 1452}),
 			rapid.Int64Range(1200, 1452),
